@@ -11,7 +11,7 @@ LEVEL_TEXT = (
     'label is the dequeued depth + 1 and initial states have depth 1; the share-out keeps the local '
     'queue order. Minimality itself is the textbook consequence for one thread and is not computed.')
 
-FLOORS = {'C13-R1': 2, 'C13-R2': 2, 'C13-R3': 2, 'C13-R4': 2, 'C13-R5': 1}
+FLOORS = {'C13-R1': 2, 'C13-R2': 2, 'C13-R3': 2, 'C13-R4': 2, 'C13-R5': 1, 'C13-R6': 1}
 
 ENDS = {'pop_back': 'back', 'pop_front': 'front', 'push_back': 'back', 'push_front': 'front'}
 
@@ -116,6 +116,26 @@ def run(ctx):
         ok = bool(jobs) and all(is_one(st['rv']['ops'][3]) for (i, st) in jobs)
         ctx.check(ok, 'C13-R4', 'initial-depth', sp.b, good='initial jobs have depth 1',
                   bad='BFS spawn: initial jobs are not labelled with depth 1')
+
+    ctx.doc('C13-R6', 'the initial states enter the search as ONE queue: spawn publishes them with a single push that '
+                      'is not inside a loop (a batch per initial state makes a single worker finish a whole search '
+                      'from one initial state before it looks at the next)')
+    with ctx.rule('C13-R6', 'BFS spawn'):
+        import roles
+        sp = Spawn(F, 'BFS')
+        ctx.touched(sp.b)
+        s_ = F.norm(sp.b)
+        pushes = roles.calls_role(F, s_, 'push')
+        if not pushes:
+            raise AnchorMissing('BFS spawn: JobBroker::push of the initial jobs')
+        ok = len(pushes) == 1 and not s_.in_cycle(pushes[0].bb)
+        ctx.check(ok, 'C13-R6', 'initial-frontier-is-one-batch', sp.b,
+                  good='all initial jobs are published as one batch, in init_states() order',
+                  bad='BFS spawn publishes the initial states in %s: a worker takes one batch, runs it to exhaustion and '
+                      'only then returns to the market, so with one thread the states reachable from one initial '
+                      'state are evaluated before the other initial states (depth 0) - evaluation is no longer by '
+                      'non-decreasing depth and the first witness found is not a shortest one' %
+                      ('several batches' if len(pushes) > 1 else 'one batch per turn of a loop'))
 
     ctx.doc('C13-R5', 'single-thread order preservation: the BFS worker hands part of its queue to the market '
                       'only when thread_count > 1, or the broker splits off at most (thread_count - open_count) '
